@@ -30,6 +30,25 @@ CLAIMED = {
             'are not separately decided; validity of the map argument is a precondition.',
             'Trusted: CPython ast, naming scheme, Pauli oracle, C01.',
             'DESIGN.md 3 (R7, R6, R5, R13, R2, R8), 4 (C03)'),
+    'C04': ('interprocedural mutation/alias summaries (operands unchanged, fresh results) + call binding and summand normal '
+            'form of the compose / inverse wiring',
+            'Decides the property\'s last sentence for all inputs (compose, inverse, identity_map, z2inv write nothing '
+            'reachable from their operands and return fresh maps) and the wiring that the group laws depend on '
+            '(receiver-first transform, inverse phase correction -(mismatch)-ps0, identity = eye/0, singular raises). '
+            'Associativity, two-sided inverse and anti-homomorphism are NOT decided: they rest on loop-carried values of '
+            'the Gauss-Jordan kernel, out of reach of a static argument.',
+            'Trusted: CPython ast, view/copy table of effects.py, naming scheme, C03.',
+            'DESIGN.md 3 (R4, R2, R6), 4 (C04)'),
+    'C17': ('interprocedural, field-sensitive MOD / alias / copy-provenance summaries over the resolved call graph with '
+            'class inference for method edges',
+            'Best fit of the family: for all inputs and histories, a write to shared storage is visible as a store through '
+            'an alias chain. 17 copy methods are decided fresh, independent and faithful field by field; ~220 query '
+            'methods/constructors are decided to write nothing reachable from receiver or arguments; in-place '
+            'operations are decided to write only their receiver. Effects visible only through name-resolved calls are '
+            'listed as undecided, not reported.',
+            'Trusted: CPython ast, numpy/torch view-vs-copy table, numba in-place semantics, the A.3 query/in-place '
+            'lists, class inference. User-held views (state.stabilizers) are documented aliasing and out of scope.',
+            'DESIGN.md 3 (R4), 4 (C17)'),
     'C11': ('constant-table extraction by guard evaluation + literal folding, checked against first-principles '
             'Pauli algebra (symplectic validity, textbook action, distinctness, group closure)',
             'Complete static decision of the finite gate tables: all 31 literal tables (5 named, 24 indexed, 2 CNOT '
